@@ -354,6 +354,8 @@ def random_():
     return random.random()
 
 
+@specs.parameter('from_', int)
+@specs.parameter('to_', int)
 def random__(from_, to_):
     """:yaql:random
 
